@@ -49,9 +49,9 @@ multilot_regex = re.compile(
         ({intervener_regex.pattern})+\s*   # IMPORTANT: Allow more than one intervener
                                         # to keep matching multilots to the right!
 
-        (?P<word_lot_rightmost>(L\.?|Lt\.?|Lot)    # The word or abbreviation "Lot" (optional on the right).
-        (?P<plural_rightmost>s)?)?   # Plural 's' (optional).
-        \s*
+        (?:(?P<word_lot_rightmost>(L\.?|Lt\.?|Lot)    # The word or abbreviation "Lot" (optional on the right).
+        (?P<plural_rightmost>s)?)   # Plural 's' (optional).
+        \s*)?                       # (Whitespace after that word only if it is there.)
         (?P<lotnum_rightmost>\d{{1,3}})     # lotnum (rightmost)
         \s*
         
